@@ -803,6 +803,8 @@ def node_traces(nodes, w, qlog):
     uid_of = {}        # (path, id(value object)) -> uid, learned when the worker took the item
     put_by = {p: {} for p in acts}    # path -> uid -> code put on q_out by that node
     hits = []
+    seen_root = set()
+    dup = []
 
     def producer(tname, ident):
         m = re.search(r'nd(R[0-9.]*)w-', tname)
@@ -820,6 +822,10 @@ def node_traces(nodes, w, qlog):
             acts[path].append(('start' if op == 'call' else 'finish') + ' ' + (','.join(map(str, us)) or '-'))
             continue
         u, code, idv = item
+        if op == 'put' and q == w['root_in']:
+            if u in seen_root:
+                dup.append(u)
+            seen_root.add(u)
         if op == 'put':
             if q in w['qin']:
                 acts[w['qin'][q]].append(f'arrive {u} {code}')
@@ -883,6 +889,9 @@ def node_traces(nodes, w, qlog):
                     hits.append(dict(prop='C04', rule='batch-nonmember-failed',
                                      detail=f'worker {t["mark"]}: uid {u} was answered with the batch error but was in no failed batch'))
     lines = []
+    # the proviso of the theorems: the uids handed to the tree are pairwise distinct
+    if dup:
+        lines.append(f'dupuid {dup[0]}')
     for p in sorted(acts):
         nd = nodes[p]
         lines.append('node ' + p + ' ' + ' '.join(tree_tokens(nd['t'])))
